@@ -356,6 +356,17 @@ func genRL(r *common.Rand) string {
 
 // ---- handshake
 
+// Handshake time lines cannot pre-compute the bucket (whether AllowIP is reached depends on the
+// gates), so they avoid token counts near the threshold altogether: a large burst with 1 token/s
+// (never near 1 token; Burst*U <= Rate*TTL holds), or a small burst with no refill (pure counter;
+// TTL exceeds the time line, so no bucket is ever dropped).
+func hsRate(burst int) int {
+	if burst >= 1000 {
+		return 1
+	}
+	return 0
+}
+
 var kinds = []string{"anonOk", "anonFail", "unknown", "noChallenge", "badResp", "good", "phase1"}
 
 func genHS(r *common.Rand) string {
@@ -388,7 +399,7 @@ func genHS(r *common.Rand) string {
 		}
 		tl.adv(common.Pick(r, gaps))
 	}
-	return fmt.Sprintf("hs %d %d %d %d 0 %d 1000000 1000 %s", m, w, b, p, burst, strings.Join(tl.evs, " "))
+	return fmt.Sprintf("hs %d %d %d %d %d %d 1000000 1000 %s", m, w, b, p, hsRate(burst), burst, strings.Join(tl.evs, " "))
 }
 
 // a locked address keeps trying every kind of handshake until the ban is over
@@ -411,7 +422,8 @@ func genHSLocked(r *common.Rand) string {
 		tl.adv(1)
 	}
 	tl.add("h:%d:%s", ip, common.Pick(r, kinds))
-	return fmt.Sprintf("hs %d %d %d %d 0 %d 1000000 1000 %s", m, w, b, p, common.Pick(r, []int{2, 1000}), strings.Join(tl.evs, " "))
+	burst := common.Pick(r, []int{2, 1000})
+	return fmt.Sprintf("hs %d %d %d %d %d %d 1000000 1000 %s", m, w, b, p, hsRate(burst), burst, strings.Join(tl.evs, " "))
 }
 
 // Exhaustive small scope: every sequence of `n` steps over the given alphabet, each step followed by
